@@ -65,17 +65,25 @@
                        the current table and not at all at any other step that keeps the
                        table pointer; the store that publishes a table makes the abstract
                        map the visible content of that table, which is empty when the
-                       table was allocated by a Clear.  NOT proved: that the table a grow
-                       or shrink publishes has the content of the table it replaces (the
-                       MapOf machine has it: C04_abs_step).
+                       table was allocated by a Clear.
+     C03_abs_step_all  (proofs/XS_resize.v) the complete statement, as C04_abs_step for
+                       MapOf: every step of every thread from every reachable state
+                       changes the abstract map in exactly one of these ways -- a
+                       linearization store on the current table updates / removes that
+                       writer's key; the publish of a grow or shrink leaves it unchanged
+                       (XR: the unpublished table holds what is visible in the buckets
+                       copied so far; no writer past resizeInProgress() sits on a copied
+                       bucket), although writers are active on buckets not yet copied;
+                       the publish of a Clear empties it; nothing else changes it.
+                       C03_clear_kt: the continuation identifies the resizes that are Clears.
    Not proved for Map: that a solo Load returns exactly svis (the definition is read off
-   the reader's value / key / value snapshot); the grow / shrink half of C03_abs_step;
+   the reader's value / key / value snapshot);
    the concurrent behaviour of map.go beyond the above is decided by the step correspondence and by search: the real code under
    the controlled scheduler (random / PCT schedules at the granularity of single
    atomic operations, tables at the grow / shrink thresholds, Clear), every
    history checked for linearizability against map[string]interface{}. *)
 From CacheV Require Import Base SpecMap TableModel TabExec Exec XMachineS XExec XExecS.
-From CacheV.proofs Require Import C11_lists C11_table C11_idx X_maps XS_inv XS_lock XS_own XS_count XS_inst XS_cells XS_vis XS_abs XS_cinst.
+From CacheV.proofs Require Import C11_lists C11_table C11_idx X_maps XS_inv XS_lock XS_own XS_count XS_inst XS_cells XS_vis XS_abs XS_cinst XS_resize XS_rinst.
 From Coq Require Import NArith.
 
 Theorem C03_sequential :
@@ -306,3 +314,43 @@ Example C03_cells_nonvacuous :
   /\ topent 3%nat (ctops (stab_at 3%nat (fun _ => 1%nat) s 0%nat) 0%nat) 0%nat = (true, 7%N).
 Proof. exact cells_nonvacuous. Qed.
 Print Assumptions C03_cells_nonvacuous.
+
+(* ---------------- the abstract map, complete (XMachineS, every schedule) ---------------- *)
+
+Theorem C03_abs_step_all :
+  forall (K V : Type) (eqd : forall a b : K, {a = b} + {a <> b}) hash idx tophash nslots seeds g sh nstripes minlen grow_only,
+    rhyps hash idx tophash nslots minlen -> forall len0 todo sched t s' ls, (0 < len0)%nat ->
+    let s := fst (@srun K V eqd hash idx tophash nslots seeds g sh nstripes minlen grow_only (sinit nslots seeds nstripes len0 todo) sched) in
+    @sstep K V eqd hash idx tophash nslots seeds g sh nstripes minlen grow_only s t = Some (s', ls) ->
+    match h_pc s t with
+    | QR_Publish kt new =>
+        (clear_kt kt /\ forall k v, ~ sabs hash idx tophash nslots nstripes s' k v)
+        \/ (~ clear_kt kt /\ forall k v, sabs hash idx tophash nslots nstripes s' k v <-> sabs hash idx tophash nslots nstripes s k v)
+    | p => forall k v, sabs hash idx tophash nslots nstripes s' k v
+                       <-> XS_vis.upd_rel (sabs hash idx tophash nslots nstripes s) (XS_vis.lin_effect p (h_cur s)) k v
+    end.
+Proof. exact @reachable_abs_step. Qed.
+Print Assumptions C03_abs_step_all.
+
+Theorem C03_clear_kt :
+  forall (K V : Type) (eqd : forall a b : K, {a = b} + {a <> b}) hash idx tophash nslots seeds g sh nstripes minlen grow_only,
+    rhyps hash idx tophash nslots minlen -> forall len0 todo sched t, (0 < len0)%nat ->
+    XS_resize.hint_ok (h_pc (fst (@srun K V eqd hash idx tophash nslots seeds g sh nstripes minlen grow_only (sinit nslots seeds nstripes len0 todo) sched)) t).
+Proof. exact @XS_resize.clear_kt_proof. Qed.
+Print Assumptions C03_clear_kt.
+
+Theorem C03_resize_instance :
+  forall o hint, oracle64 o -> rhyps (hash_of o) idx_map tag_map (nslots_of false) (minlen_of_hint false hint).
+Proof. exact s_instance_rhyps. Qed.
+Print Assumptions C03_resize_instance.
+
+(* non-vacuity (proofs/XS_rinst.v): a state in the middle of a grow with a writer past resizeInProgress()
+   on a bucket the copy has not reached *)
+Example C03_resize_nonvacuous :
+  let s := gex_run (repeat 0 20 ++ repeat 1 5 ++ repeat 2 18)%nat in
+  progress (h_pc s 2%nat) = Some (0%nat, 1%nat, 1%nat)
+  /\ committed (h_pc s 1%nat) = Some (0%nat, 3%nat)
+  /\ XS_lock.sholds gex_hash gex_idx 1%nat (fun _ => 1%nat) s (h_pc s 1%nat) = Some (0%nat, 1%nat)
+  /\ h_cur s = 0%nat /\ h_resizing s = true.
+Proof. exact resize_nonvacuous. Qed.
+Print Assumptions C03_resize_nonvacuous.
